@@ -71,8 +71,9 @@ class Node:
 
 
 class Gen:
-    def __init__(self, rng, families=None, max_rows=8, null_rate=0.2, flat=False, allow=None, nary_intersect=False):
+    def __init__(self, rng, families=None, max_rows=8, null_rate=0.2, flat=False, allow=None, nary_intersect=False, shuffle_decl=False):
         self.nary_intersect = nary_intersect
+        self.shuffle_decl = shuffle_decl      # declare the components of some operands in another order
         self.r = rng
         self.allow = set(allow) if allow else None
         self.flat = flat          # three-address form: one dataset-level operator per statement
@@ -124,6 +125,10 @@ class Gen:
             rows = [tuple(list(key) + [self.value(t) for _, t in meas]) for key in sorted(keys)]
             r.shuffle(rows)
             env['DS_%d' % k] = {'ids': list(ids), 'meas': list(meas), 'rows': rows}
+            if self.shuffle_decl and r.random() < 0.5:
+                decl = [c for c, _ in list(ids) + list(meas)]
+                r.shuffle(decl)
+                env['DS_%d' % k]['decl'] = decl
         return fam, env
 
     # ------------------------------------------------------------------ component expressions
@@ -602,6 +607,8 @@ def structures(env):
     for n, d in env.items():
         comps = [{'name': i, 'type': t, 'role': 'Identifier', 'nullable': False} for i, t in d['ids']]
         comps += [{'name': m, 'type': t, 'role': 'Measure', 'nullable': True} for m, t in d['meas']]
+        if d.get('decl'):        # same components, declared in another order
+            comps.sort(key=lambda c: d['decl'].index(c['name']))
         dss.append({'name': n, 'DataStructure': comps})
     return {'datasets': dss}
 
@@ -623,5 +630,5 @@ def dataframes(env):
                 data[c] = pd.array(vals, dtype='boolean')
             else:
                 data[c] = pd.array(vals, dtype='string')
-        out[n] = pd.DataFrame(data, columns=cols)
+        out[n] = pd.DataFrame(data, columns=d.get('decl') or cols)
     return out
